@@ -12,6 +12,7 @@ unsigned verif_b_read_calls, verif_b_write_calls;  /* ghost */
 unsigned verif_b_written_token;                    /* ghost */
 static B_OWN_T backend_read_binary(VERIF_ISTREAM *fs)
 {
+  if (verif_thrown) { B_OWN_T d0 = {0}; return d0; }   /* an exception thrown while evaluating the argument: B is never entered */
   verif_b_read_calls++;
   verif_b_read_pos = fs->pos;
   if (!(verif_b_image_ok && fs->len - fs->pos >= verif_b_image_len)) {
@@ -28,7 +29,8 @@ static void backend_write_binary(VERIF_OSTREAM *fs, const B_OWN_T *o)
   verif_b_write_calls++;
   verif_b_write_pos = fs->len;
   verif_b_written_token = o->token;
-  if (verif_b_image_len > 0) __CPROVER_havoc_slice(fs->buf + fs->len, verif_b_image_len);
+  /* the bytes of B's image are arbitrary: the ghost output buffer beyond `len` is unconstrained already, so B's
+   * write is modelled by claiming the region (no byte is constrained, none before `len` is touched) */
   fs->len += verif_b_image_len;
 }
 #define VERIF_B_IO_GHOSTS verif_b_read_calls, verif_b_read_pos, verif_b_write_calls, verif_b_write_pos, verif_b_written_token
